@@ -400,10 +400,11 @@ class Interp:
             if isinstance(a, UTerm) and a.same(b):
                 return True
             t, o = (a, b) if isinstance(a, UTerm) else (b, a)
-            if isinstance(o, (str, int, bool)) or o is None:
-                # comparison of abstract text with a constant: an uninterpreted test
+            if isinstance(o, (str, int, bool, UTerm)) or o is None:
+                # comparison of abstract text with a constant / another abstract text: an uninterpreted test
                 import hashlib
-                return z3.Bool("eqtest!" + hashlib.sha256(repr((t.key(), repr(o))).encode()).hexdigest()[:12])
+                ko = o.key() if isinstance(o, UTerm) else repr(o)
+                return z3.Bool("eqtest!" + hashlib.sha256(repr(sorted([repr(t.key()), repr(ko)])).encode()).hexdigest()[:12])
             raise Unsupported("== on abstract text")
         if isinstance(a, TStr) or isinstance(b, TStr):
             t, o = (a, b) if isinstance(a, TStr) else (b, a)
@@ -999,6 +1000,8 @@ class Interp:
             out.append(s)
         if all(isinstance(x, (str, TStr, FinStr)) for x in out):
             return tstr.concat(out)
+        if any(isinstance(x, UTerm) for x in out) and all(isinstance(x, (str, UTerm)) for x in out):
+            return UTerm("concat", out, "str")          # literal pieces and abstract texts, in order
         return OpaqueStr("format:" + fmt)
 
     def format_value(self, v, spec, conv):
